@@ -100,7 +100,7 @@ func genC08(t *rapid.T) c08Prog {
 			rapid.SampledFrom([][]byte{{}, {0}, {0xff}, {0xff, 0x01}, {0xc3, 0x28}, []byte("hello"), {0xe2, 0x82, 0xac}, {0xed, 0xa0, 0x80}, bytes.Repeat([]byte{0x80}, 300)}),
 		).Draw(t, "payload"),
 		LogID: rapid.StringMatching(`[a-zA-Z0-9/_\-é€]{1,10}`).Draw(t, "logid"),
-		Time:  rapid.OneOf(rapid.IntRange(0, 30), rapid.IntRange(0, 1<<62), rapid.SampledFrom([]int{23, 24, 255, 256, 65535, 65536, 1<<32 - 1, 1 << 32, 1 << 40}),
+		Time: rapid.OneOf(rapid.IntRange(0, 30), rapid.IntRange(0, 1<<62), rapid.SampledFrom([]int{23, 24, 255, 256, 65535, 65536, 1<<32 - 1, 1 << 32, 1 << 40}),
 			// a clock handed in through LogOptions.Clock can be below zero: it is a number like any other to the codec
 			rapid.SampledFrom([]int{-1, -5, -24, -25, -256, -257, -65536, -65537, -(1 << 32), -(1<<32 + 1), -(1 << 62)}), rapid.IntRange(-(1<<62), -1)).Draw(t, "time"),
 	}
